@@ -376,6 +376,37 @@ pub mod prelude {
             lemma_boundary_step_ascii(b, i);
         }
     }
+    /// PROVED: a prefix of valid UTF-8 is itself valid exactly when it ends on a character boundary
+    /// (<== is vstd's valid_utf8_split; ==> by induction over the scalars)
+    pub proof fn lemma_valid_prefix_is_boundary(s: Seq<u8>, n: int)
+        requires vstd::utf8::valid_utf8(s), 0 <= n <= s.len(), vstd::utf8::valid_utf8(s.subrange(0, n))
+        ensures vstd::utf8::is_char_boundary(s, n)
+        decreases s.len()
+    {
+        if n > 0 {
+            let p = s.subrange(0, n);
+            assert(p[0] == s[0]);
+            let l = vstd::utf8::length_of_first_scalar(s);
+            assert(vstd::utf8::length_of_first_scalar(p) == l);
+            assert(vstd::utf8::valid_first_scalar(p));
+            assert(vstd::utf8::valid_leading_and_continuation_bytes_first_codepoint(p));
+            assert(n >= l);
+            assert(1 <= l <= 4);
+            let ps = vstd::utf8::pop_first_scalar(s);
+            let pp = vstd::utf8::pop_first_scalar(p);
+            assert(pp =~= ps.subrange(0, n - l));
+            assert(vstd::utf8::valid_utf8(ps));
+            assert(vstd::utf8::valid_utf8(pp));
+            lemma_valid_prefix_is_boundary(ps, n - l);
+        }
+    }
+    pub proof fn lemma_utf8_prefix_iff_boundary(s: Seq<u8>, n: int)
+        requires vstd::utf8::valid_utf8(s), 0 <= n <= s.len()
+        ensures vstd::utf8::valid_utf8(s.subrange(0, n)) == vstd::utf8::is_char_boundary(s, n)
+    {
+        if vstd::utf8::is_char_boundary(s, n) { vstd::utf8::valid_utf8_split(s, n); }
+        if vstd::utf8::valid_utf8(s.subrange(0, n)) { lemma_valid_prefix_is_boundary(s, n); }
+    }
     pub broadcast proof fn lemma_boundary_ends(b: Seq<u8>)
         ensures vstd::utf8::valid_utf8(b) ==> vstd::utf8::is_char_boundary(b, 0) && #[trigger] vstd::utf8::is_char_boundary(b, b.len() as int)
     {
